@@ -144,6 +144,9 @@ Definition dstep (d : dstate) (o : dop) : dstate * obs :=
         (mkD h' (with_hooks s H), mkObs e calls)
       else (mkD h' s, mkObs None [])
   | DAddTrait x f v =>
+      (* add_trait of a name that already is a trait of x re-defines it: the notifiers of the old trait are
+         carried over, its value stays, trait_added is NOT fired (has_traits.add_trait: `if old_trait is None`) *)
+      if has_trait h x f then (d, mkObs None []) else
       let h' := add_trait_h h x f v in
       let '(H, calls, e) := run_ta_notifiers h' s x f (st_hooks s (x, F_TA)) (st_hooks s) [] in
       (mkD h' (with_hooks s H), mkObs e calls)
